@@ -488,6 +488,30 @@ def stream_families(seed, tier):
         add("reader-stall-4096", cfg(0, sync=16, asyn=8, mx=64, perturb=i % 3),
             opened + [send("X", "a", 4400, "max"), op("pump", ep="X", ms=2500), send("X", "s", 10, "min"), op("pump", ep="X", ms=200),
                       op("pump", ms=3000), send("X", "a", 3, "min"), op("pump", ms=300)])
+    # size x burst: notifications larger than one write of the transport accepts (yamux splits at 16 KiB, quinn at its own
+    # chunk size), several of them queued before the sender's Connection task runs (the task class is held, the burst is
+    # queued, the task is released), sync / async / interleaved, both directions; every delivered byte is checked
+    BIG = ["40k", "40k", "40k", "40k", "16k-1", "16k", "16k+1", "1k", "100k", "min", "max", "40k", "100k", "16k+1", "max", "1k"]
+    nb = 0
+    for r2 in range(1 if tier == "quick" else 3):
+        for mx in (262144, 1048576):
+            for k, burst in enumerate((4, 2, 8, 6)):
+                nb += 1
+                sizes = [BIG[(nb * 3 + j) % len(BIG)] for j in range(burst)] if k else ["40k"] * 4
+                d, o = ("X", "Y") if nb % 2 else ("Y", "X")
+
+                def held(sends, who=d):
+                    return [op("stall", ep=who, cls="conn", on=True)] + sends + [op("stall", ep=who, cls="conn", on=False), op("pump", ms=500)]
+                sync_burst = held([send(d, "s", 1, z) for z in sizes])
+                async_burst = held([send(d, "a", 1, z) for z in sizes[:8]])
+                mixed = held([send(d, ("s", "a")[j % 2], 1, z) for j, z in enumerate(sizes)])
+                back = held([send(o, "s", 1, z) for z in sizes[:4]], who=o)
+                # every second scenario over a slow link (8 KiB per 2 ms): the receiver gets the stream piecemeal, what it is
+                # handed is read by its user before the rest (and a possible framing error) arrives
+                slow = [op("throttle", bytes=8192)] if nb % 2 == 0 else []
+                add("size-burst", cfg(0, sync=16, asyn=8, mx=mx, perturb=nb % 3),
+                    opened + slow + sync_burst + [op("pump", ms=300)] + async_burst + mixed + back + [op("throttle", bytes=0)] +
+                    [send(d, "s", 2, "min"), send(o, "a", 2, "1k"), op("pump", ms=300)])
     # notifications of a closed stream left in the handle while the stream is reopened (receiver initiates, auto-accept)
     for i in range(2 if tier == "quick" else 8):
         add("stale-reopen", cfg(0, auto=("Y",), sync=2048, asyn=8, mx=64, perturb=i % 3),
@@ -498,13 +522,24 @@ def stream_families(seed, tier):
 
 def stream_random_script(rng, idx, seed):
     sy, asy = rng.choice([(1, 1), (2, 1), (1, 2), (2, 2), (16, 8)])
-    c = cfg(seed * 100000 + 70000 + idx, auto=[e for e in EPS if rng.random() < 0.5], sync=sy, asyn=asy, mx=rng.choice([64, 256, 1024]),
-            perturb=rng.choice([0, 1, 2]))
+    large = rng.random() < 0.35
+    if large:
+        sy, asy = 16, 8
+    c = cfg(seed * 100000 + 70000 + idx, auto=[e for e in EPS if rng.random() < 0.5], sync=sy, asyn=asy,
+            mx=rng.choice([262144, 1048576]) if large else rng.choice([64, 256, 1024]), perturb=rng.choice([0, 1, 2]))
+    bigs = ["1k", "16k-1", "16k", "16k+1", "40k", "100k", "max", "min"]
     steps = [policy("X", "accept"), policy("Y", "accept"), open_(rng.choice(EPS)), await_("X", "open"), await_("Y", "open")]
     for _ in range(rng.randint(5, 22)):
         r = rng.random()
         e = rng.choice(EPS)
-        if r < 0.5:
+        if large and r < 0.5:
+            # a burst queued while the sender's Connection task is held
+            n = rng.randint(2, 8)
+            mode = rng.choice(["s", "a", "mix"])
+            steps += ([op("stall", ep=e, cls="conn", on=True)] +
+                      [send(e, (mode if mode != "mix" else rng.choice(["s", "a"])), 1, rng.choice(bigs)) for _ in range(n)] +
+                      [op("stall", ep=e, cls="conn", on=False), op("pump", ms=rng.choice([50, 300]))])
+        elif r < 0.5:
             steps.append(send(e, rng.choice(["s", "a"]), rng.choice([1, 2, 4 * sy, 4 * asy, 9]), rng.choice(["min", "mid", "max", "max", "tiny", "zero"])))
         elif r < 0.53:
             steps.append(send(e, rng.choice(["s", "a"]), 1, "over"))
@@ -531,7 +566,7 @@ def script_from_stream_behaviour(b, idx, seed, consts):
     for s in b:
         a = s["a"]
         if a in ("ssend", "asend"):
-            steps.append(send("X", "s" if a == "ssend" else "a", 1, "over" if s["over"] else ("max" if idx % 2 else "min")))
+            steps.append(send("X", "s" if a == "ssend" else "a", 1, {"over": "over", "big": ("40k", "16k+1", "100k")[idx % 3]}.get(s["sz"], "max" if idx % 2 else "min")))
         elif a == "recv":
             steps += [op("pump", ep="X", ms=10), op("pull", ep="Y", n=1)]
         elif a == "sclose":
@@ -542,7 +577,8 @@ def script_from_stream_behaviour(b, idx, seed, consts):
             steps += [await_("X", "closed", ms=2000), await_("Y", "closed", ms=2000), open_("Y" if idx % 3 == 0 else "X"),
                       await_("X", "open", ms=3000), await_("Y", "open", ms=3000)]
     steps.append(op("quiesce"))
-    c = cfg(seed * 100000 + 90000 + idx, auto=("X", "Y") if idx % 2 else (), sync=consts["S"], asyn=consts["A"], mx=64, perturb=idx % 3)
+    c = cfg(seed * 100000 + 90000 + idx, auto=("X", "Y") if idx % 2 else (), sync=consts["S"], asyn=consts["A"],
+            mx=262144 if "big" in consts.get("Sizes", ()) else 64, perturb=idx % 3)
     return {"id": "stlc-%d" % idx, "cfg": c, "steps": steps}
 
 
